@@ -192,8 +192,10 @@ func TestC17(t *testing.T) {
 			st.Case(failing >= 1 && bigReads >= 1, w.Ops)
 			st.Step(int64(len(w.Ops)))
 		}()
-		step := func(op model.Op) model.Result {
-			op = normOp(op)
+		var stepRaw func(op model.Op) model.Result
+		step := func(op model.Op) model.Result { return stepRaw(normOp(op)) }
+		// stepRaw: the request as drawn (a failing request may carry placeholders no expression uses)
+		stepRaw = func(op model.Op) model.Result {
 			if ids := guardOp(op, w.m, true); len(ids) > 0 {
 				for _, id := range ids {
 					st.Exclude(id)
@@ -226,7 +228,7 @@ func TestC17(t *testing.T) {
 					rt.Skip("no table")
 				}
 				op, _ := g.failingOp(rt, w.m)
-				step(op)
+				stepRaw(op)
 			},
 			"read": func(rt *rapid.T) {
 				if w.m.Tables[s.Table] == nil {
@@ -600,6 +602,31 @@ func TestC18(t *testing.T) {
 				ci, tn := pick(rt)
 				step(ci, model.Op{Kind: "Scan", Table: tn})
 			},
+			"get": func(rt *rapid.T) {
+				ci, tn := pick(rt)
+				if g := gens[ci][tn]; g != nil {
+					step(ci, model.Op{Kind: "Get", Table: tn, Key: g.key(rt)})
+				}
+			},
+			"batchGet": func(rt *rapid.T) {
+				// (a batch read resolves its tables like every other call: a table re-created
+				// under the same name is the new one)
+				ci, tn := pick(rt)
+				g := gens[ci][tn]
+				if g == nil {
+					return
+				}
+				seen := map[string]bool{}
+				var keys []model.Item
+				for i, n := 0, rapid.IntRange(1, 3).Draw(rt, "batchGetKeys"); i < n; i++ {
+					k := g.key(rt)
+					if ck := model.CanonItem(k); !seen[ck] {
+						seen[ck] = true
+						keys = append(keys, k)
+					}
+				}
+				step(ci, model.Op{Kind: "BatchGet", Batch: []model.TableBatch{{Table: tn, Keys: keys}}})
+			},
 			"addIndex": func(rt *rapid.T) {
 				ci, tn := pick(rt)
 				t := ws[ci].m.Tables[tn]
@@ -611,10 +638,21 @@ func TestC18(t *testing.T) {
 					ix.Range = rapid.SampledFrom([]string{"g1", "g2", "r1", "r2"}).Filter(func(a string) bool { return a != ix.Hash }).Draw(rt, "ixRange")
 					attrs[ix.Range] = "S"
 				}
+				retyped := map[string]bool{}
 				if t != nil {
+					inUse := map[string]bool{t.Schema.Hash: true, t.Schema.Range: true}
+					for _, x := range t.Schema.Indexes {
+						inUse[x.Hash], inUse[x.Range] = true, true
+					}
 					for _, a := range []string{ix.Hash, ix.Range} {
 						if ty, ok := t.Schema.Attrs[a]; ok && a != "" {
 							attrs[a] = ty
+							// an attribute that no key uses any more (its index was deleted) may be
+							// declared afresh with another type: the old definition is gone
+							if !inUse[a] && rapid.IntRange(0, 2).Draw(rt, "ixRetype") == 1 {
+								attrs[a] = map[string]string{"S": "N", "N": "S", "B": "S"}[ty]
+								retyped[a] = true
+							}
 						}
 					}
 					if rapid.IntRange(0, 3).Draw(rt, "ixNoThroughput") == 0 {
@@ -631,9 +669,17 @@ func TestC18(t *testing.T) {
 				if status == stepDone && res.Err == "" && gens[ci][tn] != nil {
 					g := gens[ci][tn]
 					g.s = ws[ci].m.Tables[tn].Schema
-					if _, ok := g.ixVals[ix.Hash]; !ok && ix.Hash != g.s.Hash && ix.Hash != g.s.Range {
-						for i := 0; i < 2; i++ {
-							g.ixVals[ix.Hash] = append(g.ixVals[ix.Hash], drawKeyValue(rt, g.s.Attrs[ix.Hash], o, "lateIxVal"))
+					for a := range retyped {
+						if g.s.Attrs[a] == attrs[a] {
+							delete(g.ixVals, a) // values of the new type from now on
+							st.Class("index-key-attribute-declared-afresh-with-another-type")
+						}
+					}
+					for _, a := range []string{ix.Hash, ix.Range} {
+						if _, ok := g.ixVals[a]; !ok && a != "" && a != g.s.Hash && a != g.s.Range {
+							for i := 0; i < 2; i++ {
+								g.ixVals[a] = append(g.ixVals[a], drawKeyValue(rt, g.s.Attrs[a], o, "lateIxVal"))
+							}
 						}
 					}
 				}
@@ -808,6 +854,12 @@ func TestC19(t *testing.T) {
 			}
 			g := newTgen(rt, s, o, rapid.IntRange(4, 30).Draw(rt, "poolSize"))
 			g.maxAttrs = 2
+			// number keys that are one number to float64 arithmetic: a batch holds requests
+			// for several of them (no update expressions on such a table)
+			if (s.Attrs[s.Hash] == "N" || s.Range != "" && s.Attrs[s.Range] == "N") && rapid.IntRange(0, 2).Draw(rt, "bigNumberKeys") == 1 {
+				g.useBigNumberKeys(rt)
+				st.Class("tables-with-number-keys-beyond-float64")
+			}
 			gens = append(gens, g)
 		}
 		nw := rapid.IntRange(0, 10).Draw(rt, "setupWrites")
@@ -817,7 +869,9 @@ func TestC19(t *testing.T) {
 			// the history before the batch also reads in batches, updates, deletes and clears
 			switch rapid.IntRange(0, 11).Draw(rt, "setupKind") {
 			case 3:
-				op = normOp(g.updateOp(rt, w.m, 0))
+				if !g.bigNums {
+					op = normOp(g.updateOp(rt, w.m, 0))
+				}
 			case 5:
 				op = model.Op{Kind: "Delete", Table: g.s.Table, Key: g.key(rt)}
 			case 7, 8:
